@@ -12,7 +12,7 @@ DRIVERS = ['C12']
 NEEDS = dict(cli=True, harness=True, shim=True, release=True)
 RULE = ("`new -n L` for every L in 0..40 under the shim with scripted entropy (all-zero, all-ones, counter, alternating, random "
         "patterns): the printed phrase must be the BIP-39 encoding of exactly the scripted bytes and the request log must show one "
-        "request of 4L/3 bytes; consecutive requests of a vanity search returning related buffers (same leading/trailing block, one bit apart, repeated); failure injected at the first request (and at later requests of a vanity search); default "
+        "request of 4L/3 bytes; persistent and transient failures with ten different errno values; consecutive requests of a vanity search returning related buffers (same leading/trailing block, one bit apart, repeated); failure injected at the first request (and at later requests of a vanity search); default "
         "length; without the shim: repeated invocations give pairwise distinct phrases that the tool parses back; "
         "a case is distinct by (L, entropy pattern)")
 TRUSTED = ["C12 (partial): that the kernel's bytes are unpredictable is outside any model; what is checked is that every entropy "
@@ -114,6 +114,37 @@ def run(ctx):
         if r.cls != "error" or r.stdout != b"":
             ctx.violation("entropy-failure-in-one-worker", dict(op="new --vanity-prefix 0xfffffff", fail_at_request=rn["k"], threads=rn["j"]),
                           "error exit, nothing printed", str(r)[:300])
+    # the source fails with every kind of errno, persistently (every request) or transiently (k failures, then a buffer):
+    # persistent failure must be an error exit with nothing printed, and must terminate; after transient failures the command may
+    # give up (error) or try again, but a printed phrase must then be exactly the buffer of the request that SUCCEEDED
+    eruns, emeta = [], []
+    errnos = ["EINTR", "EAGAIN", "ENOSYS", "EPERM", "EINVAL", "ENOMEM", "EFAULT", "EIO", "11", "38"]
+    for e in errnos:
+        for args in (["new"], ["new", "-n", "24"], ["new", "--vanity-prefix", "0x0", "-j", "0"], ["new", "--vanity-prefix", "0x0", "-j", "1"],
+                     ["new", "--vanity-prefix", "0x00", "-j", "3"]):
+            eruns.append(dict(args=args, timeout=30, env=dict(LD_PRELOAD=shim, HDW_SHIM_DEFAULT="fail:" + e)))
+            emeta.append(("persistent", e, None))
+    for e in ("EINTR", "EAGAIN", "EIO"):
+        for k in (1, 2, 3, 4, 5, 9):
+            for L in (12, 24):
+                pat = rbytes(rng, LENS[L])
+                script = os.path.join(tmp, "transient_%s_%d_%d" % (e, k, L))
+                open(script, "w").write(("fail:%s\n" % e) * k + pat.hex() + "\n")
+                eruns.append(dict(args=["new", "-n", str(L)], timeout=30, env=dict(LD_PRELOAD=shim, HDW_SHIM_SCRIPT=script, HDW_SHIM_DEFAULT="fail")))
+                emeta.append(("transient", e, pat))
+    for rn, (how, e, pat), r in zip(eruns, emeta, ctx.cli(eruns, timeout=30)):
+        ctx.count("entropy-failure/%s-errno" % how)
+        ctx.distinct(("errno", how, e, tuple(rn["args"]), pat))
+        case = dict(op="hdwallet " + " ".join(rn["args"]), getentropy="%s failure with errno %s" % (how, e), then_returns=pat.hex() if pat else None)
+        if r.cls in ("panic", "signal", "timeout"):
+            ctx.violation("entropy-failure/abnormal", case, "an error exit", str(r)[:300])
+        elif how == "persistent":
+            if r.cls != "error" or r.stdout != b"":
+                ctx.violation("entropy-failure-is-an-error", case, "error, nothing printed", str(r)[:300])
+        else:
+            want = " ".join(wl[j] for j in pyref.bip39_indices(pat))
+            if not ((r.cls == "error" and r.stdout == b"") or (r.cls == "ok" and r.stdout.decode() == want + "\n")):
+                ctx.violation("entropy-failure-then-success", case, "error with nothing printed, or exactly the phrase of the buffer that was returned: " + want, str(r)[:300])
     # consecutive requests of one process (a vanity search) returning buffers that are related to each other — same leading or
     # trailing block, a single differing bit, the same buffer twice: each is simply the entropy of the next candidate; the search
     # must go on and print the first candidate whose address matches (independent BIP-39/32 oracle), never fail
@@ -158,6 +189,33 @@ def run(ctx):
         reqs = [l.split() for l in (open(log).read().split("\n") if os.path.exists(log) else []) if l]
         if [x[1] for x in reqs] != ["16"] * (k + 1):
             ctx.violation("related-consecutive-buffers/request-log", case, "%d requests of 16 bytes" % (k + 1), reqs[:8])
+    # a failure reported to one worker while ANOTHER worker is still evaluating a candidate that will match: the failing
+    # request returns at once, the matching candidate needs milliseconds (PBKDF2 + derivation), so the error is the first
+    # message on the channel and the command fails.  Scheduling can delay the failing worker, so single runs are not judged:
+    # measured on the unchanged tree about half of the runs report the error and half print the phrase (idle and loaded
+    # machine alike), so the clause fires only if the failure is ignored in every one of 12 + 12 runs (a command that swallows
+    # a reported failure whenever some candidate matches does so every time; probability of a false alarm < 10^-6).
+    e_match = rbytes(rng, 16)
+    a_match = c18.addr_of_phrase(c18.phrase_of(e_match))
+    a_zero = c18.addr_of_phrase(c18.phrase_of(b"\x00" * 16))
+    if a_match.hex()[:4] != a_zero.hex()[:4]:
+        script = os.path.join(tmp, "race")
+        open(script, "w").write("00\n00\n" + e_match.hex() + "\nfail\n")
+        rr = [dict(args=["new", "--vanity-prefix", "0x" + a_match.hex()[:4], "-j", "2"], timeout=60,
+                   env=dict(LD_PRELOAD=shim, HDW_SHIM_SCRIPT=script, HDW_SHIM_DEFAULT="fail")) for _ in range(12)]
+        out = ctx.cli(rr, timeout=60, workers=2)
+        if all(r.cls == "ok" for r in out):
+            out += ctx.cli(rr, timeout=60, workers=1)
+        ctx.count("entropy-failure/while-another-worker-matches", len(out))
+        ctx.distinct(("race", a_match.hex()[:4]))
+        bad = [r for r in out if r.cls in ("panic", "signal", "timeout")]
+        if bad:
+            ctx.violation("entropy-failure/abnormal", dict(op="hdwallet " + " ".join(rr[0]["args"]), script="00,00,<match>,fail"), "exit", str(bad[0])[:300])
+        elif all(r.cls == "ok" for r in out):
+            ctx.violation("entropy-failure-ignored-when-another-worker-matches",
+                          dict(op="hdwallet " + " ".join(rr[0]["args"]), requests=["00" * 16, "00" * 16, e_match.hex(), "fail (EIO)"], runs=len(out)),
+                          "the failure reported at request 3 is the first message of the search in (nearly) every run: error exit", 
+                          "all %d runs printed the phrase and exited 0" % len(out))
     # phrases produced by a vanity search (every candidate after the first is a NEW mnemonic) parse back as well
     vruns = [dict(args=["new", "-n", str(n), "--vanity-prefix", p, "-j", str(j)], timeout=120) for n in (12, 15, 18, 21, 24) for p, j in (("0x1", 0), ("0xa", 2), ("0xF", 1))]
     vres = ctx.cli(vruns, timeout=120)
